@@ -137,3 +137,122 @@ def canonicalise(j):
             if 'ra' in t:
                 fix_place(t['ra'])
     return mapping
+
+
+# ---------------------------------------------------------------------------------------------------------------------------
+# Function re-binding: the rules name ~90 crate functions. A private function that was merely renamed (or moved within the
+# crate) is re-bound to the name the rules use, by signature and body similarity against rules/tables/fn_signatures.json
+# (generated from the tree the rules were written against by tools/pin_fn_signatures.py). This only restores an anchor; it
+# never decides a property.
+# ---------------------------------------------------------------------------------------------------------------------------
+import json
+import os
+
+SIG_TABLE = os.path.join(os.path.dirname(os.path.abspath(__file__)), 'tables', 'fn_signatures.json')
+
+
+def fn_signature(f):
+    callees = []
+    for b in f['blocks']:
+        if b['c']:
+            continue
+        t = b['t']
+        if t['k'] == 'call' and 'name' in t['f'] and not t.get('exp'):
+            callees.append(t['f']['name'])
+    return {
+        'impl': (f.get('impl_self') or {}).get('h'),
+        'trait_item': f.get('trait_item'),
+        'args': [f['locals'][i]['s'] for i in range(1, f['argc'] + 1)],
+        'ret': f['locals'][0]['s'],
+        'async': f.get('async', False),
+        'callees': sorted(callees),
+    }
+
+
+def signatures(j):
+    out = {}
+    for f in j['fns']:
+        if f['kind'] in ('Fn', 'AssocFn'):
+            out[f['id']] = fn_signature(f)
+    # async fns: the interesting callees live in the coroutine body
+    by_id = {f['id']: f for f in j['fns']}
+    for fid, sig in out.items():
+        c = by_id.get(fid + '::{closure#0}')
+        if c is not None and c.get('coroutine'):
+            sig['callees'] = sorted(sig['callees'] + fn_signature(c)['callees'])
+    return out
+
+
+def jaccard(a, b):
+    from collections import Counter
+    ca, cb = Counter(a), Counter(b)
+    inter = sum((ca & cb).values())
+    union = sum((ca | cb).values())
+    return inter / union if union else 1.0
+
+
+def rebind_functions(j):
+    """returns {new_id: old_id} and rewrites ids in the facts JSON in place"""
+    if not os.path.exists(SIG_TABLE):
+        return {}
+    table = json.load(open(SIG_TABLE))
+    cur = signatures(j)
+    missing = [m for m in table if m not in cur]
+    if not missing:
+        return {}
+    fresh = [n for n in cur if n not in table]
+    binding = {}
+    for m in missing:
+        ms = table[m]
+        scored = []
+        for n in fresh:
+            ns = cur[n]
+            if ns['args'] != ms['args'] or ns['ret'] != ms['ret'] or ns['async'] != ms['async']:
+                continue
+            if ms['trait_item'] != ns['trait_item']:
+                continue
+            s = jaccard(ms['callees'], ns['callees'])
+            if ms['impl'] == ns['impl']:
+                s += 0.1
+            scored.append((s, n))
+        scored.sort(reverse=True)
+        if scored and scored[0][0] >= 0.6 and (len(scored) == 1 or scored[0][0] - scored[1][0] >= 0.15) and scored[0][1] not in binding:
+            binding[scored[0][1]] = m
+    if not binding:
+        return {}
+
+    def ren(s):
+        if not isinstance(s, str):
+            return s
+        for new, old in binding.items():
+            if s == new:
+                return old
+            if s.startswith(new + '::{'):
+                return old + s[len(new):]
+        return s
+
+    for f in j['fns']:
+        for k in ('id', 'root', 'parent'):
+            if k in f:
+                f[k] = ren(f[k])
+        for l in f['locals']:
+            if l.get('h') in ('closure', 'coroutine', 'fndef') and l.get('a'):
+                l['a'] = [ren(x) for x in l['a']]
+        for b in f['blocks']:
+            for s in b['s']:
+                r = s.get('r')
+                if r and r.get('k') == 'agg' and 'def' in r:
+                    r['def'] = ren(r['def'])
+            t = b['t']
+            if t['k'] == 'call' and 'path' in t['f']:
+                for k in ('path', 'res'):
+                    if k in t['f']:
+                        t['f'][k] = ren(t['f'][k])
+                nm = t['f'].get('name')
+                for new, old in binding.items():
+                    if t['f'].get('path') == old or t['f'].get('res') == old:
+                        t['f']['name'] = old.rsplit('::', 1)[-1]
+    for im in j['impls']:
+        for it in im['items']:
+            it['def'] = ren(it['def'])
+    return binding
